@@ -364,13 +364,29 @@ WHAT = {"empty": 'XML backend: "" in %s is loaded back as None', "cr": "XML back
                           "astral character"}
 
 
-def witness_for(kind, cls, which=0):
-    """the base report with the `which`-th slot of that kind set to the sample of the class"""
+def witness_for(kind, cls, which=0, value=None):
+    """the base report with the `which`-th slot of that kind set to the sample of the class (or to `value`)"""
     d = base_desc()
     slots = [(c, k) for kd, c, k in fields(d) if kd == kind]
     c, k = slots[min(which, len(slots) - 1)]
-    c[k] = CLASS_SAMPLE[cls]
+    c[k] = CLASS_SAMPLE[cls] if value is None else value
     return d
+
+
+def distinct_base_desc():
+    """the base report with pairwise distinct strings (so that a swap of two fields is visible)"""
+    d = base_desc()
+    for i, (kind, c, k) in enumerate(fields(d)):
+        if kind != "result.status" and kind != "log.level":
+            c[k] = "s%d" % i
+    return d
+
+
+# one sample per string class of the property's quantifier (plus the classes found while building the model)
+GRID_SAMPLES = [("empty", ""), ("blank", " "), ("edge-space", " a "), ("tab", "\t"), ("lf", "a\nb"), ("cr", "a\rb"), ("crlf", "a\r\nb"),
+                ("markup", '<&>"\'</x>]]>'), ("nonascii", "\xe9\u65e5"), ("astral", "\U0001F600"), ("c0", "\x01"), ("nul", "x\x00y"),
+                ("c1", "\x85"), ("del", "\x7f"), ("nonchar", "\ufffe"), ("bom", "\ufeff"), ("surrogate", "\ud800"),
+                ("low-surrogate", "\udfff"), ("surrogate-pair", "\ud83d\ude00")]
 
 
 def finding_table():
@@ -713,41 +729,35 @@ def check(run):
     tree_cases, file_cases, mut_cases = [], [], []
     descs, xml_exact = [], []
     try:
-        # ---------------- 1. known findings: replay every listed witness on the implementation (both backends)
+        # ---------------- 1. systematic single-cause search: every string field x one sample of every string class, on both
+        # backends (this is what replays each listed known finding; any other failure is reported under its own signature)
+        t0 = 1700000000000
         base_ok = {}
         for backend in ("xml", "json"):
-            bad, o = oracle_one(base_desc(), backend, 1700000000000, workdir)
+            bad, o = oracle_one(distinct_base_desc(), backend, t0, workdir)
             base_ok[backend] = bad is None
             run.evaluations += 1
             if bad is not None:
                 run.violation("%s:base-report" % backend,
                               "%s backend: a small report made of plain ASCII words does not load back unchanged (%s)" % (backend.upper(), _brief(o)),
-                              {"backend": backend, "now_ms": 1700000000000, "report": base_desc()})
+                              {"backend": backend, "now_ms": t0, "report": distinct_base_desc()})
+        for f in ALL_FIELDS:
+            for sname, sample in GRID_SAMPLES:
+                d = witness_for(f, None, value=sample)
+                for backend in ("xml", "json"):
+                    if not base_ok[backend]:
+                        continue      # the witnesses are variations of the base report: nothing to learn from them
+                    bad, o = oracle_one(d, backend, t0, workdir)
+                    run.evaluations += 1
+                    run.count("grid_cases")
+                    if bad is not None:
+                        run.count("grid_failures_%s" % backend)
+                        run.nontrivial.add("grid:%s:%s:%s" % (backend, f, sname))
+                        classify_failure(run, backend, d, t0, workdir, o)
+        seen = {h["signature"] for h in run.oracle_hits}
         for cls, f in finding_table():
-            d = witness_for(f, cls)
-            for backend in ("xml", "json"):
-                if not base_ok[backend]:
-                    continue      # the witnesses are variations of the base report: nothing to learn from them
-                bad, o = oracle_one(d, backend, 1700000000000, workdir)
-                run.evaluations += 1
-                rp = {"backend": backend, "class": cls, "field": f, "now_ms": 1700000000000, "report": enc_desc(d)}
-                if backend != backend_of(cls):
-                    # the other backend must carry the same report unchanged (a pair of surrogates is also a surrogate for XML)
-                    if bad is not None and not (backend == "xml" and cls == "surrogate-pair" and o[1] == "UnicodeEncodeError"):
-                        run.violation("%s:%s:%s" % (backend, cls, f), "%s backend: a %s string in %s does not survive save/load (%s)" % (
-                            backend.upper(), cls, f, _brief(o)), rp)
-                    continue
-                want = {"empty": ("ok", "NotNormalForm"), "cr": ("ok",), "nonxmlchar": ("ReportLoadingError",),
-                        "surrogate": ("UnicodeEncodeError",), "surrogate-pair": ("ok",)}[cls]
-                seen = bad is not None and ((o[0] == "ok" and "ok" in want) or (o[0] == "err" and o[1] in want))
-                if seen:
-                    run.violation("%s:%s:%s" % (backend, cls, f), WHAT[cls] % f, rp)
-                    run.nontrivial.add("kf:%s:%s" % (cls, f))
-                elif bad is None:
-                    run.notes.append("listed finding %s:%s:%s no longer reproduces (fixed?)" % (backend, cls, f))
-                else:
-                    run.violation("%s:changed:%s:%s" % (backend, cls, f), "the witness of %s:%s:%s now fails differently: %s" % (
-                        backend, cls, f, _brief(o)), rp)
+            if base_ok[backend_of(cls)] and "%s:%s:%s" % (backend_of(cls), cls, f) not in seen:
+                run.notes.append("listed finding %s:%s:%s no longer reproduces (fixed?)" % (backend_of(cls), cls, f))
         # ---------------- 2. generated reports: oracle on both backends (file level), correspondence cases
         for i in range(n_reports):
             d, now, mode = gen_case(run.rng, run.tier, i)
@@ -930,8 +940,10 @@ def check(run):
         "parts, every log kind, nested suites, setups/teardowns); each is saved and loaded back through reporting.loader with both "
         "backends (oracle: normal form equal to the original, JSON-loaded = XML-loaded) and compared with save_then_load of the "
         "model inside Coq; a subset also at tree level (serializer output and unserializer result, plus randomly mutated trees for "
-        "the error branches); text layer and time codec cases. Non-trivial = a report that round-trips exactly through BOTH "
-        "backends on the implementation, a report the model classifies xml_safe, or a replayed known finding")
+        "the error branches); text layer and time codec cases; plus a systematic grid: every string field x one sample of every "
+        "string class (19 samples) on both backends, each failure explained by a known (backend, class, field) finding or reported. "
+        "Non-trivial = a report that round-trips exactly through BOTH backends on the implementation, a report the model "
+        "classifies xml_safe, or a grid case that fails (replayed known finding)")
     run.coverage["known_finding_table"] = "%d (class, field) pairs replayed" % len(finding_table())
 
 
